@@ -87,3 +87,28 @@ M("C10-wrapper-twosum-swapped", "C10", "R10.3", ("apmath.py", "    return fpa.ad
 N("C10-neutral-commute", "C10", (FPA, "    s = x + y\n    z = s - x\n    if fast:", "    s = y + x\n    z = s - x\n    if fast:"))
 N("C10-neutral-veltkamp-variant", "C10", ("algorithms.py", "    g = C * x\n    d = x - g\n    xh = g + d\n    xl = x - xh\n    return xh, xl\n\n\ndef square_dekker", "    g = x * C\n    delta = g - x\n    xh = g - delta\n    xl = x - xh\n    return xh, xl\n\n\ndef square_dekker"))
 N("C10-neutral-cross-order", "C10", (FPA, "    t2 = t1 + xh * yl\n    t3 = t2 + xl * yh\n    xyl = t3 + xl * yl", "    t2 = t1 + xl * yh\n    t3 = t2 + yl * xh\n    xyl = t3 + yl * xl"))
+
+# ----------------------------------------------------------------------------- C04
+RW = "rewrite.py"
+M("C04-table-nonneg-nonpos", "C04", "R4.1", (RW, '    ("nonnegative", "nonpositive"): (True, None, None, False, None, None),', '    ("nonnegative", "nonpositive"): (True, True, False, False, False, True),'))
+M("C04-table-const-row", "C04", "R4.1", (RW, '    ("smallest", "eps"): (False, False, True, True, False, True),', '    ("smallest", "eps"): (True, True, False, False, False, True),'))
+M("C04-table-zero-nonneg", "C04", "R4.1", (RW, '    (0, "nonnegative"): (None, False, True, None, None, None),', '    (0, "nonnegative"): (False, False, True, True, None, None),'))
+M("C04-wiring-lt-swap-index", "C04", "R4.2", (RW, "        return self._compare(expr, lambda x, y: x < y, 3, 1)", "        return self._compare(expr, lambda x, y: x < y, 3, 3)"))
+M("C04-wiring-ge-column", "C04", "R4.2", (RW, "        return self._compare(expr, lambda x, y: x >= y, 0, 2)", "        return self._compare(expr, lambda x, y: x >= y, 1, 2)"))
+M("C04-not-lt", "C04", "R4.3", (RW, "            # ! (x < y) -> x >= y -> y <= x\n            a, b = x.operands\n            return expr.context.le(b, a)", "            # ! (x < y) -> x >= y -> y <= x\n            a, b = x.operands\n            return expr.context.lt(b, a)"))
+M("C04-not-ge", "C04", "R4.3", (RW, "            # ! (x >= y) -> x < y\n            a, b = x.operands\n            return expr.context.lt(a, b)", "            # ! (x >= y) -> x < y\n            a, b = x.operands\n            return expr.context.le(a, b)"))
+M("C04-select-gt-flip", "C04", "R4.3", (RW, "            # (a > b) ? x : y -> (a <= b) ? y : x\n            a, b = cond.operands\n            return expr.context.select(a <= b, y, x)", "            # (a > b) ? x : y -> (a <= b) ? y : x\n            a, b = cond.operands\n            return expr.context.select(a < b, y, x)"))
+M("C04-select-ne-noswap", "C04", "R4.3", (RW, "            return expr.context.select(a == b, y, x)", "            return expr.context.select(a == b, x, y)"))
+M("C04-subtract-zero-sign", "C04", "R4.3", (RW, "                    return -y_ if s == -1 else y_", "                    return y_"))
+M("C04-multiply-neutral", "C04", "R4.3", (RW, "                if isinstance(value, number_types) and value == 1:\n                    return y_", "                if isinstance(value, number_types) and value == 0:\n                    return y_"))
+M("C04-conj-idempotent", "C04", "R4.3", (RW, '        if x.kind == "conjugate":\n            return x.operands[0]', '        if x.kind == "conjugate":\n            return x'))
+M("C04-negative-idempotent", "C04", "R4.3", (RW, '        if x.kind == "negative":\n            return x.operands[0]', '        if x.kind == "negative":\n            return x'))
+M("C04-and-absorb", "C04", "R4.3", (RW, "                    return y_ if value else ctx.constant(False)", "                    return y_ if value else ctx.constant(True)"))
+M("C04-nested-select", "C04", "R4.3", (RW, "            if b is y:\n                return expr.context.select(expr.context.logical_and(cond, cond1), a, y)", "            if b is y:\n                return expr.context.select(expr.context.logical_or(cond, cond1), a, y)"))
+M("C04-same-operands", "C04", "R4.3", (RW, '            if expr.kind in {"eq", "le", "ge"}:\n                return expr.context.constant(True)', '            if expr.kind in {"eq", "le", "gt"}:\n                return expr.context.constant(True)'))
+M("C04-isnonneg-multiply", "C04", "R4.7", ("expr.py", "                (x._is_nonnegative and y._is_nonnegative)\n                or (x._is_nonpositive and y._is_nonpositive)", "                (x._is_nonnegative and y._is_nonnegative)\n                or (x._is_nonpositive and y._is_nonnegative)"))
+M("C04-isnonpos-seed", "C04", "R4.7", ("expr.py", '        elif self.kind in {"sqrt", "square", "absolute"} and self.operands[0]._is_positive:\n            return False', '        elif self.kind in {"sqrt", "square", "absolute"} and self.operands[0]._is_nonnegative:\n            return False'))
+M("C04-isnonneg-subtract", "C04", "R4.7", ("expr.py", "            if x._is_nonnegative and y._is_nonpositive:\n                return True\n            if x._is_negative and y._is_positive:\n                return False", "            if x._is_nonnegative and y._is_nonnegative:\n                return True\n            if x._is_negative and y._is_positive:\n                return False"))
+N("C04-neutral-row-none", "C04", (RW, '    ("positive", "nonpositive"): (True, True, False, False, False, True),', '    ("positive", "nonpositive"): (True, None, None, False, None, None),'))
+N("C04-neutral-dead-row", "C04", (RW, '    ("smallest", "positive"): (None, False, True, None, None, None),', '    ("smallest", "positive"): (True, True, False, False, False, True),'))
+N("C04-neutral-comment", "C04", (RW, "            # ! (x > y) -> x <= y\n", "            # not (x > y) is x <= y\n"))
